@@ -18,7 +18,7 @@
          subject segment s with dist(p,s) <= 3/2 and dist(q,s) <= 3/2.  The 3/2-neighbourhood of a
          segment is convex, so this is equivalent to "every point of g is within 3/2 of s", i.e. the
          literal reading of "every solution segment lies within 1.5 units of an open subject segment"
-         (proofs/OpenClipSpec.v, ball_convex).
+         (the convexity of the distance to a convex set is used on paper, it is not proved in this development).
      (b) footprint of g on s := the parameter interval between the nearest points of s to p and q.
          extra: g must have a subject segment s (as in (a)) and a KEPT run r of s such that the
          footprint lies in r enlarged by 3 units at each end that is a cut (no enlargement at segment
@@ -73,6 +73,13 @@ Fixpoint chain (lo : Q) (ts : list Q) : list (Q * Q) :=
   | t :: r => (lo, t) :: chain t r
   end.
 Definition mk_pieces (ts : list Q) : list (Q * Q) := chain 0%Q ts.
+
+(* (used in statements only) consecutive pieces share their end point *)
+Fixpoint linked (l : list (Q * Q)) : Prop :=
+  match l with
+  | a :: ((b :: _) as t) => snd a = fst b /\ linked t
+  | _ => True
+  end.
 
 (* ---------- winding numbers at rational points ---------- *)
 (* the point a + t (b - a) with t = n/d as the integer point d*a + n*(b - a) together with the scale d *)
@@ -203,6 +210,10 @@ Fixpoint extend (fuel : nat) (ivs : list (Q * Q)) (cur : Q) : Q :=
 Definition covered (start_ok end_ok : Q -> bool) (ivs : list (Q * Q)) : bool :=
   existsb (fun iv => start_ok (fst iv) && end_ok (extend (length ivs) ivs (snd iv))) ivs.
 
+(* (used in statements only) every parameter between lo and hi lies in one of the intervals *)
+Definition Cov (ivs : list (Q * Q)) (lo hi : Q) : Prop :=
+  forall q, (lo <= q)%Q -> (q <= hi)%Q -> exists iv, In iv ivs /\ (fst iv <= q)%Q /\ (q <= snd iv)%Q.
+
 (* the run is not longer than the margins removed from it: nothing has to be covered *)
 Definition run_trivial (m L : Z) (r : run) : bool :=
   let k := b2z (r_locut r) + b2z (r_hicut r) in
@@ -288,9 +299,9 @@ Definition gp_open (Cl O : paths) : bool :=
 Definition general_position_open (S C O : paths) : bool :=
   general_position (S ++ C) && gp_open (S ++ C) O.
 
-(* Stricter reading of general position, NOT part of the hypothesis, only reported: the open polylines are also in
-   general position among themselves (every open vertex >= 3 units from every open segment it is not an end of by
-   index; proper self-crossings are allowed).  False for 180-degree spikes, first = last loops, collinear overlaps. *)
+(* The vertex rule of general position among the open segments: every open vertex is >= 3 units from every open
+   segment it is not an end of by index (proper self-crossings are allowed).  False for 180-degree spikes, first = last
+   loops, collinear overlaps.  Part of the hypothesis [general_position_C05] below. *)
 Definition open_self_clear (O : paths) : bool :=
   let oes := open_tedges_from 0 O in
   forallb (fun ip =>
@@ -299,6 +310,25 @@ Definition open_self_clear (O : paths) : bool :=
                         || seg_far tol3 1 (snd iv) (te_a f, te_b f)) oes)
       (combine (seq 0 (length (snd ip))) (snd ip)))
     (combine (seq 0 (length O)) O).
+
+(* The hypothesis of C05 ("open polylines together with closed subject and clip paths in general position") is general
+   position of the WHOLE input, all edges alike, in the sense the property set defines the term (C01): every input vertex
+   and every pairwise proper crossing is >= 3 units from every input edge it does not lie on by construction - no touching,
+   no overlapping collinear edges, no three edges through one point.  Beyond [general_position_open] (closed paths among
+   themselves, open against closed) this asks
+     [open_self_clear]: the same vertex rule among the open segments (false for a polyline that folds back on itself,
+                        first = last loops, collinear overlaps), and
+     [gp_joint]:        every proper crossing of two non-adjacent input edges of ANY kind (closed x closed, open x closed,
+                        open x open) is >= 3 units from every third input edge, open or closed.
+   Proper self-crossings of the open polylines are in general position and stay in. *)
+Definition gp_joint (Cl O : paths) : bool :=
+  let all := tag_paths Cl ++ open_tedges_from (length Cl) O in
+  forall_pairs (fun e f => adjacent e f || crossing_ok all e f) all.
+
+Definition open_general (Cl O : paths) : bool := open_self_clear O && gp_joint Cl O.
+
+Definition general_position_C05 (S C O : paths) : bool :=
+  general_position_open S C O && open_general (S ++ C) O.
 
 (* ---------- comparing two closed solutions as regions (used when (d) finds different paths) ---------- *)
 Definition wn_diff (tn td : Z) (A B : paths) (pts : list pt) : list pt :=
@@ -318,6 +348,14 @@ Proof. vm_compute. reflexivity. Qed.
 Example ex_self : (open_self_clear [[(0,0);(50,0);(50,40)]], open_self_clear [[(0,0);(50,0);(20,0)]],
                    open_self_clear [[(0,0);(50,0);(50,40);(0,0)]], open_self_clear [[(0,0);(50,0);(50,40);(20,-30)]])
                   = (true, false, false, true).
+Proof. vm_compute. reflexivity. Qed.
+Example ex_gp_C05 : (general_position_C05 [] [sq10] [[(-5,5);(15,5)]],
+                     general_position_C05 [] [[(40,-10);(60,-10);(60,16);(40,16)]] [[(0,40);(100,10);(0,10);(90,10);(95,40)]],   (* folds back *)
+                     general_position_open [] [[(40,-10);(60,-10);(60,16);(40,16)]] [[(0,40);(100,10);(0,10);(90,10);(95,40)]],
+                     general_position_C05 [] [sq10] [[(-5,5);(15,5);(15,-5);(5,-5);(5,15)]],                                     (* proper self-crossing *)
+                     general_position_C05 [] [[(0,0);(40,0);(40,40);(0,40)]] [[(-10,5);(50,35)]; [(-10,35);(50,5)]],          (* open x open crossing at (20,20) *)
+                     general_position_C05 [] [[(0,0);(40,0);(40,40);(0,40)]] [[(10,30);(30,50)]; [(10,50);(30,30)]])          (* open x open crossing on the edge y = 40 *)
+                    = (true, false, true, true, true, false).
 Proof. vm_compute. reflexivity. Qed.
 Example ex_gp_bad : general_position_open [] [sq10] [[(-5,5);(12,5)]] = false.
 Proof. vm_compute. reflexivity. Qed.
